@@ -156,6 +156,21 @@ CLAIMED["C18"] = dict(
     technique="regenerated-table theorems (vm_compute over the shipped list) + Coq pipeline model correspondence + CLI sweep",
     design="5/C18")
 
+CLAIMED["C08"] = dict(
+    text=("Models of is_enzymatic, non-specific, semi-specific and full digestion (window of start positions, methionine "
+          "handling) and a declarative cleavage rule spec_digest. Theorems: a site is exactly 'after a pre residue not followed "
+          "by a not_post residue, or before a post residue'; non-specific digestion = the rule for ALL sequences and windows; "
+          "full and semi-specific digestion = the rule for every sequence of length 1..5 over the five residue classes the "
+          "algorithm can distinguish x 5 enzyme shapes x 5 windows x budgets 0..2 x methionine on/off (kernel-checked exhaustive "
+          "sweep, bound stated in the theorem; ~2.9 million digest/spec comparisons); the enzyme table is REGENERATED from "
+          "digest.py's AST on every run and proved well-formed. Correspondence: get_digested_peptides against the model (set "
+          "equality) AND the implementation's output against spec_digest evaluated in Coq (so a disagreement yields a concrete "
+          "failing sequence), on exhaustive small and random long sequences with every enzyme of the table."),
+    note=COMMON_NOTE + "Unbounded statement for full/semi digestion is NOT proved (bounded sweep + correspondence). Sequences "
+         "non-empty, min_len >= 1. Translator for the enzyme table trusted (fail-closed, compared with the runtime dict). Axioms: none.",
+    technique="Coq proof (non-specific, all inputs) + kernel-checked exhaustive sweep (full/semi, stated bound) + in-Coq spec evaluation on the implementation's output",
+    design="5/C08")
+
 ALL = [f"C{i:02d}" for i in range(1, 21)]
 
 
